@@ -6,6 +6,7 @@ from ..rules import lenguard as R4
 from ..rules import meet as R1M
 from ..rules import everyiter as R1D
 from ..rules import fsbind as RFS
+from . import c05 as C05
 
 CONFIGS_QUICK = ["default"]
 CONFIGS_THOROUGH = ["default", "nopar", "r1cs"]
@@ -87,6 +88,7 @@ def meet_starts(ctx, a, spec):
     return []
 
 
+EXPLANATION += (" Shared rules: R15 / R1 on the combining batch verifiers, R1d and R5o on the coefficients of check_combinations, R4s (no positional pairing after an element-dropping adaptor on one side), R4a lock-step form, the absence form of R3, R1L.")
 RULE = ("instances = verdict call sites + verifier x proof field + proof-vs-claims zip sites + encode calls on proof "
         "vectors; an instance holds iff the flow / dominance fact is established on the type-checked program")
 
@@ -139,6 +141,17 @@ def run(rep, ctx, tier):
         zips += nz
         padts = {e[0] for e in a.info["proof"]}
         rep.count("loop_zips_over_proof_vectors", R4.run_loopzip(rep, ctx, a, padts, "R4c"))
+        # no positional pairing (zip / enumerate-as-index) after an element-dropping adaptor on one side only
+        rep.count("shifted_pairings", R4.run_shifted_pairing(rep, ctx, a, "R4s"))
+        if a.key in C05.COMBINING:
+            # batched evaluation binding rests on a combiner that is live and re-drawn per query (shared with C05)
+            C05.combiner_rules(rep, ctx, a, a.key)
+        if a.method == "check_combinations" and ("FIELD", "data_structures::LinearCombination", "terms") in g.fwd:
+            # every term's coefficient enters the combined claim (shared with C06)
+            R1D.run_values(rep, ctx, a, "R1d", role="coefficients", what="coefficient of an equation term",
+                           starts=[("FIELD", "data_structures::LinearCombination", "terms")])
+            from ..rules import overwrite as R5O
+            R5O.run(rep, ctx, a, ("FIELD", "data_structures::LinearCombination", "terms"), "R5o")
         if a.info.get("adt") == "linear_codes::LinearCodePCS":
             n = R4.run_encode(rep, ctx, a, "R4b")
             if n == 0:
@@ -177,5 +190,7 @@ def run(rep, ctx, tier):
                     ("%s is absorbed into the verifier's transcript" % w) if w in got else
                     ("%s no longer reaches any absorb of the verifier (absorbed today: %s): it is not bound by the challenges "
                      "derived from the transcript" % (w, ", ".join(sorted(got)) or "nothing")), vb.span)
+    rep.add("R4s", "no-shifted-pairing", True, "every positional pairing in the verifiers' scopes pairs sequences that were "
+            "filtered together or not at all (violations are reported per site)", None, nontrivial=False)
     if zips < 1:
         rep.add("R4a", "floor", False, "no proof-vs-claims zip found in any verifier (floor is 1; fail closed)", None)
